@@ -22,6 +22,12 @@ CHECKS = {
  "C10": dict(tech="TLA+ L1 language machine: scope model (known frames, ambiguity, arity) in Prql.tla; every ill-formed behaviour of PrqlMC replayed; acceptance of an ill-formed program rejected by TLC (PrqlTrace)",
     text="every program the bounded model marks ill-formed (reference to a dropped column, ambiguous bare name after join, arity mismatch) must make prqlc::compile return Err; every well-formed one must compile",
     ref="DESIGN.md section 4 C10"),
+ "C17": dict(tech="TLA+ tiling monitor over token streams (Lexer.tla); bounded-exhaustive string space declared to and checked for completeness by TLC (LexerTrace), every lexed string trace-validated",
+    text="every string up to the length bound over the 22-symbol lexical alphabet (TLC checks membership, enumeration order and the size of the space, so the exhaustiveness claim is TLC's), plus seeded longer strings; each token stream is validated by the tiling monitor (ordered, non-overlapping, on character boundaries, only inline whitespace between tokens, each slice re-lexes to the same token; rejected sources carry errors and no tokens)",
+    ref="DESIGN.md section 4 C17", note="trusted: TLC; pv's recording of spans and of the re-lexed slice (self-tested by corrupting spans on every run); token identity = Debug rendering of TokenKind"),
+ "C18": dict(tech="TLA+ decision table Effective(option, header) (Target.tla) model-checked over the full 15x15 matrix (TargetMC); every cell replayed through prqlc::compile and validated against the canonical cell by TLC (TargetTrace)",
+    text="exhaustive over the (option, header) matrix (12 dialects + absent + sql.any + unknown on both axes) x a program set: the SQL of each cell must equal the SQL of the canonical cell for the effective dialect, consulted unknown names must be errors, the resolver's verdict must not depend on the cell",
+    ref="DESIGN.md section 4 C18", note="trusted: TLC; pv's interning of SQL texts; the option axis is exercised through Target::from_str"),
 }
 m = {"version": 1, "setup_cmd": "bin/setup",
      "hooks": {"guard": "prql_verif", "enable": "rustflags --cfg prql_verif --check-cfg cfg(prql_verif) in harness/.cargo/config.toml (the harness is a path dependant of /repo/prqlc/prqlc)",
